@@ -97,3 +97,13 @@ fn c13_after_container_sibling() {
     std::mem::forget(m.insert(k, jnum(1)));
     check(JValue::Object(m), reserved);
 }
+
+/// [[{k: 1}]] — an object reached through an array nested directly in an array
+#[kani::proof]
+#[kani::unwind(3)]
+#[kani::stub(alloc::fmt::format, fmt_stub)]
+fn c13_array_in_array() {
+    let k = sym_name();
+    let reserved = is_reserved(&k);
+    check(arr1(arr1(obj1(k, jnum(1)))), reserved);
+}
